@@ -47,8 +47,17 @@ size_t g_last, g_outlen;              /* out: search start of the final (failing
 int g_done;                           /* out: the tail copy was reached */
 const char *g_in0;
 char *g_buf0;
+#ifdef REPLAY
+#include "igris/string/memmem.c"      /* native runs call the real routine (under cbmc it is used through its contract) */
+#endif
 #include "igris/string/replace_substrings.c"
 
+/* proof mode: inlen <= 2^38 (headroom for the 128-bit length sum); witness / fallback runs: the small-size bound itself */
+#ifdef WITNESS_MODE
+#define C19_RS_MAXIN VC_MAXOBJ
+#else
+#define C19_RS_MAXIN (VC_MAXOBJ / 4)
+#endif
 void harness(void)
 {
     WIT(size_t, maxsize);
@@ -61,7 +70,7 @@ void harness(void)
     WIT_ARR(char, ci, 6);
     WIT_ARR(char, cs, 6);
     WIT_ARR(char, cr, 6);
-    __CPROVER_assume(inlen <= VC_MAXOBJ / 4 && maxsize <= VC_MAXOBJ);
+    __CPROVER_assume(inlen <= C19_RS_MAXIN && maxsize <= VC_MAXOBJ);
     __CPROVER_assume(sublen <= VC_MAXOBJ && replen <= VC_MAXOBJ);
     /* finding C19_replace_substrings_maxsize is fixed: every maxsize (0 included), every sublen / replen */
     C19_BLOCK(input, inlen, ci);
